@@ -248,6 +248,75 @@ def scn(params):
         sim.close()
 
 
+def scn_stock(params):
+    """The real client against a server written from doc/proto_00000502.txt (simnet/mserver.py) - not built from this tree -
+    through a member of the relay family: what the client negotiates must also work with a peer that merely follows the
+    document (e.g. 'after N all downstream payloads will be max fragsize + 2 bytes').  Downstream only: frames queued at the
+    model server must reach the client's tun intact."""
+    from simnet import mserver
+    seed = params["seed"]
+    rng = random.Random(params["rseed"])
+    out = {"violations": [], "nontrivial": [], "stats": {"stock_runs": 1, "stock_frames_delivered": 0, "stock_handshakes_completed": 0},
+           "evaluations": 1, "sets": {}}
+    sim = scen.Sim("c11k-%d" % params["idx"], seed)
+    try:
+        k = sim.k
+        m = params["member"]
+        hs = mserver.HandshakeServer(scen.SERVER_IP, sim.domain, sim.password, userid=rng.choice([0, 3, 15]))
+        hs.serve_down = True
+        k.add_actor(hs.ip, hs)
+        rl = relay.XformRelay(scen.RELAY_IP, (scen.SERVER_IP, 53), random.Random(rng.getrandbits(32)), tuple(m["qcfg"]), tuple(m["acfg"]),
+                              [TNUM[t] for t in m["allowed"]], m["limit"], m["edns0"], refuse_mode=m["refuse"])
+        rl.rr_order = m.get("rr_order", "keep")
+        k.add_actor(scen.RELAY_IP, rl)
+        opts = ["-r"] + list(params.get("forced") or [])
+        c = sim.client("cli0", "10.53.1.1", scen.RELAY_IP, opts)
+        sim.run_until(lambda: sim.client_in_tunnel(c) or not c.alive(), 300 * US)
+        wit = {"seed": seed, "member": m, "client_options": opts, "params": params}
+        h = sim.health(c)
+        if h.startswith("sanitizer") or h == "stalled" or h.startswith("signal") or h.startswith("shimfail"):
+            out["inconclusive"] = "process-" + h.split(":")[0]
+            return out
+        if not sim.client_in_tunnel(c):
+            out["inconclusive"] = "handshake-with-model-server-failed"     # (the real-server scenarios judge negotiation failures)
+            return out
+        out["stats"]["stock_handshakes_completed"] = 1
+        ctip = tunnelscn.client_tun_ip(k, "cli0")
+        if ctip is None:
+            out["inconclusive"] = "no-ifconfig"
+            return out
+        frames = []
+        for i in range(6):
+            f = proto.make_frame("10.9.0.1", ctip, (0xC11 << 28) | (params["idx"] << 8) | i, rng.choice([300, 600, 1000]), rng.choice(["random", "random", "text"]), rng)
+            frames.append(f)
+            hs.down_queue.append(f)
+        k.run(k.now + 150 * US)
+        h = sim.health(c)
+        if h != "running":
+            if h.startswith("sanitizer") or h == "stalled" or h.startswith("signal"):
+                out["inconclusive"] = "process-" + h.split(":")[0]
+                return out
+        got = [bytes(ev[3]["data"]) for ev in k.log if ev[1] == "tun_write" and ev[2] == "cli0"]
+        # frames of more than 16 fragments are outside what the protocol can carry
+        judged = [f for f in frames if tunnelscn.est_down_frags(f, max(hs.fragsize, 1)) <= 14]
+        missing = [f for f in judged if f not in got]
+        out["stats"]["stock_frames_delivered"] = sum(1 for f in judged if f in got)
+        last_qt = proto.QTYPE_NAMES.get(hs.steps[-1][1]) if hs.steps else None
+        if missing:
+            out["violations"].append(("C11:stock-peer:down:lost:%s:%s:%s" % (last_qt, hs.downenc, "/".join(m["acfg"])),
+                                      "after a successful handshake with a server that follows the protocol document (type %s, downstream %s, fragment size %d as set by the client), %d of %d queued packets never reached the client (%d fragments sent)"
+                                      % (last_qt, hs.downenc, hs.fragsize, len(missing), len(judged), hs.down_fragments_sent),
+                                      dict(wit, stderr=k.stderr_text(c, 800))))
+        elif len(judged) >= 3:
+            out["nontrivial"].append(repr(("stock-peer", last_qt, hs.downenc, "F<=130" if hs.fragsize <= 130 else "F<=600" if hs.fragsize <= 600 else "F>600", m["limit"])))
+        if params["idx"] % 50 == 0:
+            out["sample"] = {"stock_peer": True, "member": m, "qtype": last_qt, "downenc": hs.downenc, "fragsize": hs.fragsize,
+                             "delivered": out["stats"]["stock_frames_delivered"], "fragments": hs.down_fragments_sent}
+        return out
+    finally:
+        sim.close()
+
+
 def run(ctx):
     res = core.Result()
     res.rule = ("scenario = real client through one member of the relay family to the real server; members: every single-axis "
@@ -259,6 +328,7 @@ def run(ctx):
                 "fragment-size bucket, lazy, EDNS0 honoured, size limit, forced option) of runs with >=6 judged deliveries each way, "
                 "plus forced options the path cannot carry that ended in a clean failure.")
     res.assumptions = ["liveness restated as: handshake within 300 virtual s, delivery within 120 s after the last offer",
+                       "stock-peer scenarios: the model server (simnet/mserver.py) answers at once (no lazy holding), serves downstream per the protocol document and cuts what a host-name answer cannot hold, like iodined; a handshake that does not complete against it is inconclusive, not a violation",
                        "the family is the stated product, not every conceivable middlebox"]
     n = ctx.pick(400, 40000)
     rng = random.Random(ctx.seed * 5011 + 11)
@@ -276,11 +346,27 @@ def run(ctx):
                 forced = ["-T", rng.choice(ORDER), "-O", rng.choice(["base32", "base64", "base64u", "base128"])]
         plist.append({"idx": i, "seed": ctx.seed * 100000 + i, "rseed": rng.getrandbits(32), "member": member, "forced": forced,
                       "lazy0": rng.random() < 0.15, "pred": rng.random() < 0.3})
+    # the same client against a server that merely follows the protocol document (not built from this tree)
+    slist = []
+    for i in range(ctx.pick(64, 4000)):
+        member = gen_member(rng, 40 + i)
+        member["chase_cname"] = False
+        forced = None
+        if rng.random() < 0.5:
+            forced = ["-T", rng.choice(["CNAME", "A", "MX", "SRV", "TXT", "NULL"])]
+            if not forced_compatible(member, forced, forced[1]):
+                forced = None
+        slist.append({"idx": i, "seed": ctx.seed * 100000 + 60000 + i, "rseed": rng.getrandbits(32), "member": member, "forced": forced,
+                      "stock": True})
     if ctx.replay:
-        plist = [ctx.replay["witness"]["params"]]
+        rp = ctx.replay["witness"]["params"]
+        plist, slist = ([], [rp]) if rp.get("stock") else ([rp], [])
     res.min_evaluations = 0 if ctx.replay else n // 2
     res.min_nontrivial = 0 if ctx.replay else ctx.pick(40, 300)
     with core.Build() as b:
-        simrun.run_scenarios(res, b, scn, plist, jobs=ctx.jobs)
+        if plist:
+            simrun.run_scenarios(res, b, scn, plist, jobs=ctx.jobs)
+        if slist:
+            simrun.run_scenarios(res, b, scn_stock, slist, jobs=ctx.jobs)
     simrun.finalize_sets(res)
     return res
